@@ -27,6 +27,30 @@ mod zobrist;
 pub mod verif {
     pub use super::precalculated::magic_verif as magic;
     pub use super::precalculated::nonmagic_verif as nonmagic;
+
+    /// lookups through the very names this file's move generation and check detection import, so
+    /// that whatever those names are bound to is what gets read
+    pub mod in_use {
+        use super::super::{BISHOP_MAGICS, BLACK_PAWN_NONMAGICS, KING_NONMAGICS, KNIGHT_NONMAGICS, ROOK_MAGICS, UnsafeMagicsExt, UnsafeNonmagicsExt, WHITE_PAWN_NONMAGICS};
+
+        pub fn slider(rook: bool, square: u32, occupancy: u64) -> u64 {
+            assert!(square < 64);
+            if rook { ROOK_MAGICS.get_attacks(square, occupancy) } else { BISHOP_MAGICS.get_attacks(square, occupancy) }
+        }
+
+        /// 0 king, 1 knight, 2 white pawn, 3 black pawn
+        pub fn leaper(which: u32, square: u32) -> u64 {
+            assert!(square < 64);
+            unsafe {
+                match which {
+                    0 => KING_NONMAGICS.get_attacks(square),
+                    1 => KNIGHT_NONMAGICS.get_attacks(square),
+                    2 => WHITE_PAWN_NONMAGICS.get_attacks(square),
+                    _ => BLACK_PAWN_NONMAGICS.get_attacks(square),
+                }
+            }
+        }
+    }
 }
 
 fn _construct_pgn_regex() -> Regex {
